@@ -132,3 +132,28 @@ def array_convert_forms(ia, ib, us1, us2, d, form):
         if form != "str" and r.units.sys != SYS[us2]:
             return False
     return True
+
+
+_SP = ["km", "m", "dm", "cm", "mm", "dmm", "cmm", "µm", "nm", "pm", "fm"]
+_TI = ["h", "min", "s", "ds", "cs", "ms", "µs", "ns", "ps", "fs"]
+_QU = ["kmol", "mol", "dmol", "cmol", "mmol", "µmol", "nmol", "pmol", "fmol", "molecule"]
+_DV = [(1, 0, 0), (1, -1, 0), (0, 1, 0), (-3, 0, 1), (2, -1, 0), (3, -1, -1)]
+_SPEC = None
+
+
+def all_systems(si_, ti, qi, di):
+    """every one of the 1100 unit systems, visited one after the other IN THE SAME PROCESS (results must not depend on
+    which conversions ran before): conversion to and from a fixed target equals the SI-table factor"""
+    global _SPEC
+    if _SPEC is None:
+        _SPEC = si_spec()
+    import math
+    us = UnitsSystem(_SP[si_], _TI[ti], _QU[qi])
+    d = _DV[di]
+    dim = UnitsDimensions(*d)
+    tgt = UnitsSystem("µm", "s", "molecule")
+    want = (math.log10(_SPEC["space"][_SP[si_]]) - math.log10(1e-6)) * d[0] + math.log10(_SPEC["time"][_TI[ti]]) * d[1] + math.log10(_SPEC["quantity"][_QU[qi]]) * d[2]
+    f = compute_conversion_factor(us, tgt, dim)
+    g = compute_conversion_factor(tgt, us, dim)
+    v = UnitValue(2.0, Units(us, dim)).convert(tgt).value
+    return abs(math.log10(f) - want) <= 1e-9 and abs(math.log10(g) + want) <= 1e-9 and abs(math.log10(v / 2.0) - want) <= 1e-9
